@@ -137,6 +137,7 @@ func checkC16(p *core.Program, r *core.Report) {
 	r.Rule("O16.3", "parse errors propagate; fromHex fails iff SetString fails")
 	r.Rule("O16.4", "decoder base 0 ↔ encoder \"0x\"+Text(16)")
 	r.Rule("O16.5", "wire index fields are uint32 / []uint32")
+	r.Rule("O16.7", "pooled wire structs / buffers in the codecs are reset before use and not used after Put (result independent of earlier decodes)")
 	r.Rule("O16.6", "json.Marshal sites expose MarshalJSON")
 	r.Trusted = append(r.Trusted, "math/big.Int.SetString(s, 0) accepts exactly Go integer literals and reports failure through ok", "encoding/json rejects out-of-range or non-numeric tokens for uint32 fields", "big.Int.Text(16) is lowercase hex without prefix")
 	r.NotDecided = append(r.NotDecided, "value equality after a round trip (numerical)", "exotic literals accepted by SetString base 0 (underscores, 0b/0o prefixes)")
@@ -286,6 +287,21 @@ func checkC16(p *core.Program, r *core.Report) {
 	// ---- number parser and convention
 	checkNumberCodec(p, r, eng, ix)
 	checkMarshalArgs16(p, r, ix)
+	// O16.7: "decoding yields identical values for every parameter set" must not depend on what was decoded before: a wire
+	// struct or buffer the codecs take from a sync.Pool is reset before use and not used after Put (the rule of C13
+	// O13.3/O13.5, applied to the codec methods whether or not the server reaches them)
+	codecFns := map[*ssa.Function]*ssa.Function{}
+	for _, T := range paramTypes(p) {
+		for _, m := range []string{"MarshalJSON", "UnmarshalJSON"} {
+			if fn := p.MethodOf(T, m); fn != nil && fn.Blocks != nil {
+				codecFns[fn] = fn
+			}
+		}
+	}
+	saved := poolRules
+	poolRules = [2]string{"O16.7", "O16.7"}
+	checkPoolUse(p, r, codecFns)
+	poolRules = saved
 }
 
 // checkDecoderLengths: every destination slice of the decoder is made with the length of its wire source and filled over
